@@ -331,6 +331,12 @@ func commaLed(p *parser, t *token, left *token) *token {
 }
 
 func getType(p *parser) *token {
+	// type expressions nest through this function only ([]T, *T, map[K]V, func(...), struct{...}): same bound as Expression
+	p.Depth++
+	defer func() { p.Depth-- }()
+	if p.Depth > maxParseDepth {
+		panicf("nesting deeper than %v levels", maxParseDepth)
+	}
 	t := p.Token
 	p.Next()
 	switch t.Symbol {
